@@ -10,7 +10,7 @@
     the legacy model); [*_spec] is the post-processing of its outcome. *)
 From Coq Require Import NArith ZArith List Bool Arith.
 From PLV Require Import Base.PyStr Tok.PState Tok.Tokenizer Parse.Nodes Parse.Parser Parse.ParseWire
-     Parse.Legacy Proofs.LegacyProofs Proofs.LegacyArgs.
+     Parse.Legacy Proofs.LegacyProofs Proofs.LegacyArgs Proofs.ComposeLegacy.
 From PLV Require Gen.GenWalkerCtx.
 Import ListNotations.
 
@@ -181,8 +181,9 @@ Qed.
       [group_shape] (a parsed expression / group ends exactly at the reader position — the
       content of "re-tokenizing from p = np + nl is threading one reader") and on four explicit
       premises about single tokens / the reader ([star_premises], [reader_premises]);
-    - [C16_legacy_args_equiv_run_partial]: the same against [run (TArgs ...)] itself, with fuel
-      monotonicity of the frozen parser model as a further explicit premise.
+    - [C16_legacy_args_equiv_run_partial]: the same against [run (TArgs ...)] itself; fuel
+      monotonicity of the frozen parser model, formerly a further explicit premise, is now
+      discharged by [Proofs/ParserMono.v: run_mono] ([C16_fuel_monotone]).
     Token parse errors of the look-ahead are not compared (see [agree]). *)
 Theorem C16_legacy_args_equiv_partial : forall s cx ps,
   star_premises s cx ps -> reader_premises s cx ps ->
@@ -191,14 +192,56 @@ Theorem C16_legacy_args_equiv_partial : forall s cx ps,
           (legacy_parse_args_f s false cx F ps a false None p).
 Proof. exact legacy_args_equiv_fold. Qed.
 
+(** Fuel monotonicity of the frozen parser model — formerly an explicit premise
+    of [C16_legacy_args_equiv_run_partial] — holds of every string and every
+    context: it is [Proofs/ParserMono.v: run_mono] (composition with C06). *)
+Theorem C16_fuel_monotone : forall s cx f f' t,
+  f <= f' -> run s false cx f t <> OutOfFuel -> run s false cx f' t = run s false cx f t.
+Proof. exact fuel_monotone_holds. Qed.
+
+(** hence the pylatexenc-3 arguments parser [run (TArgs ...)] IS the fold of
+    standard-argument parsers [new_args_loop], for any fuels with which neither
+    runs out (no premise) *)
+Theorem C16_args_fold_is_run : forall s cx a F F' ps p acc,
+  new_args_loop s cx F ps a p acc <> OutOfFuel ->
+  run s false cx F' (TArgs ps (map std_spec a) acc p) <> OutOfFuel ->
+  run s false cx F' (TArgs ps (map std_spec a) acc p) = new_args_loop s cx F ps a p acc.
+Proof. exact args_fold_is_run_all. Qed.
+
+(** ... and the legacy algorithm against [run (TArgs ...)] itself WITHOUT the
+    monotonicity premise (this statement replaces the earlier one that carried
+    [fuel_monotone s cx]; it is strictly stronger).  Still [_partial]: the
+    token / reader premises [star_premises], [reader_premises] remain (see the
+    comment above; [star_premises] is not true of every context — a context may
+    declare [*] as a specials — and [reader_premises] are two facts about the
+    strict expression / optional-group parsers that no theorem of the development
+    provides yet). *)
 Theorem C16_legacy_args_equiv_run_partial : forall s cx ps,
-  fuel_monotone s cx -> star_premises s cx ps -> reader_premises s cx ps ->
+  star_premises s cx ps -> reader_premises s cx ps ->
   forall F F' a p, forallb argchar_ok a = true ->
     new_args_loop s cx F ps a p [] <> OutOfFuel ->
     run s false cx F' (TArgs ps (map std_spec a) [] p) <> OutOfFuel ->
     agree (run s false cx F' (TArgs ps (map std_spec a) [] p))
           (legacy_parse_args_f s false cx F ps a false None p).
-Proof. exact legacy_args_equiv_run. Qed.
+Proof. exact legacy_args_equiv_run_all. Qed.
+
+(** with the model's own fuel on both sides (what the executable entry points run) *)
+Theorem C16_legacy_args_equiv_parse_fuel_partial : forall s cx ps,
+  star_premises s cx ps -> reader_premises s cx ps ->
+  forall a p, forallb argchar_ok a = true ->
+    new_args_loop s cx (parse_fuel s) ps a p [] <> OutOfFuel ->
+    run s false cx (parse_fuel s) (TArgs ps (map std_spec a) [] p) <> OutOfFuel ->
+    agree (run s false cx (parse_fuel s) (TArgs ps (map std_spec a) [] p))
+          (legacy_parse_args s false cx ps a false None p).
+Proof. exact legacy_args_equiv_run_parse_fuel. Qed.
+
+(** why [star_premises] remains an explicit premise: it does not hold of every
+    context — under a context that declares [*] as a specials, the token read at
+    a [*] is a specials token with text [*] (so the legacy algorithm, which tests
+    for a chars token, and the pylatexenc-3 star argument may differ) *)
+Example C16_star_premises_context_dependent :
+  ~ star_premises [42%N] star_ctx (walker_state star_ctx).
+Proof. exact star_premises_context_dependent. Qed.
 
 (** a parsed expression / group ends exactly where the reader stands *)
 Theorem C16_expr_ends_at_reader : forall s cx f ps acc pos n p,
@@ -249,6 +292,10 @@ Print Assumptions C16_args_spellings.
 Print Assumptions C16_args_spellings_all.
 Print Assumptions C16_std_macro_optnum.
 Print Assumptions C16_legacy_args_equiv_partial.
+Print Assumptions C16_fuel_monotone.
+Print Assumptions C16_args_fold_is_run.
 Print Assumptions C16_legacy_args_equiv_run_partial.
+Print Assumptions C16_legacy_args_equiv_parse_fuel_partial.
+Print Assumptions C16_star_premises_context_dependent.
 Print Assumptions C16_expr_ends_at_reader.
 Print Assumptions C16_group_ends_at_reader.
